@@ -118,9 +118,13 @@ def route(file):
     return []
 
 
-def phase2(surv, out, workers):
+ALL_LIB = ["C01", "C02", "C03", "C04", "C05", "C06", "C07", "C08", "C09", "C11", "C12", "C13", "C14", "C16"]
+
+
+def phase2(surv, out, workers, name="phase2", router=None):
+    router = router or route
     done = {}
-    path = os.path.join(out, "phase2.jsonl")
+    path = os.path.join(out, name + ".jsonl")
     if os.path.exists(path):
         for l in open(path):
             j = json.loads(l)
@@ -143,7 +147,7 @@ def phase2(surv, out, workers):
                     return
                 wt.apply(m)
                 verdict, by, tail = "undetected", "", ""
-                for cid in route(m["file"]):
+                for cid in router(m["file"]):
                     env = dict(ENV, VERIF_REPO=wt.dir, VERIF_GOFLAGS="-modfile=" + wt.mod, VERIF_BIN=os.path.join(wt.dir, ".verif-bin"),
                                VERIF_EVIDENCE_SUFFIX=".msw", VERIF_RUNS=str(RUNS[cid]), VERIF_WORKERS=str(per), VERIF_C14_SKIP_RACE="1")
                     rc, o = sh([os.path.join(V, "check"), cid, "quick"], cwd=V, env=env, timeout=1500)
@@ -204,6 +208,8 @@ def main():
     print("phase 1:", dict(c1), flush=True)
     if a.phase == "1":
         return
+    if a.phase == "3":
+        a.phase = "3"
     surv = sorted((v for v in p1.values() if v["result"] == "survived"), key=lambda m: m["key"])
     if a.sample and a.sample < len(surv):
         random.Random(a.seed).shuffle(surv)
@@ -215,6 +221,21 @@ def main():
     print("phase 2:", dict(c2))
     print("detected by:", dict(Counter(v["by"] for v in sel if v["verdict"] == "detected")))
     und = [v for v in sel if v["verdict"] == "undetected"]
+    if a.phase in ("3", "all") and und:
+        # second pass for the undetected ones: every check the first route did not name
+        def rest(f):
+            first = route(f)
+            pool = ["C10", "C15"] if re.search(r"^cmd/gxz/|^internal/(gflag|term)/", f) else ALL_LIB
+            return [c for c in pool if c not in first]
+        print(f"phase 3 on {len(und)} undetected survivors", flush=True)
+        p3 = phase2([{k: v[k] for k in ("file", "start", "end", "repl", "desc", "line", "func", "key")} for v in und], a.out, max(1, a.workers // 2), "phase3", rest)
+        for v in und:
+            w = p3.get(v["key"])
+            if w and w["verdict"] != "undetected":
+                v["verdict"], v["by"], v["tail"] = w["verdict"], w["by"], w["tail"]
+        c3 = Counter(v["verdict"] for v in und)
+        print("phase 3:", dict(c3))
+        und = [v for v in und if v["verdict"] == "undetected"]
     json.dump({"mutants": len(muts), "phase1": dict(c1), "survivors_examined": len(sel), "phase2": dict(c2), "undetected": und},
               open(os.path.join(a.out, "summary.json"), "w"), indent=1)
     for v in und:
